@@ -15,6 +15,7 @@ So `P('__x.accepted and __x.state == states.ERROR')` matches
 """
 import ast
 import itertools
+import re
 
 _FLIP = {ast.Lt: ast.Gt, ast.Gt: ast.Lt, ast.LtE: ast.GtE, ast.GtE: ast.LtE,
          ast.Eq: ast.Eq, ast.NotEq: ast.NotEq, ast.Is: ast.Is,
@@ -36,6 +37,12 @@ def P(src):
     return node
 
 
+def _dump(n):
+    """ast.dump without the Load/Store context (a comprehension target and
+    its uses are the same name)."""
+    return re.sub(r",? ?ctx=(Load|Store|Del)\(\)", "", ast.dump(n))
+
+
 def _is_meta(n):
     return isinstance(n, ast.Name) and n.id.startswith('__')
 
@@ -51,7 +58,7 @@ def _m(p, n, b):
         if p.id == '___':
             return b
         if p.id in b:
-            return b if ast.dump(b[p.id]) == ast.dump(n) else None
+            return b if _dump(b[p.id]) == _dump(n) else None
         b = dict(b)
         b[p.id] = n
         return b
